@@ -243,6 +243,14 @@ def explore(ctx):
                     if v is not None:
                         g["lib"] = {"public.verticalOrigin": v}
         desc["info"] = info
+        if i % 12 in (3, 8):
+            # fractional advances (interpolated / scaled sources), exact halves above even AND odd integers included: the metrics
+            # table holds the advance rounded to the nearest integer, halves up -- the same number the CFF charstring carries
+            for k, g in enumerate(desc["glyphs"]):
+                g["width"] = Fr([250, 301, 600, 2, 499, 0, 1000][k % 7]) + [Fr(1, 2), Fr(1, 2), Fr(1, 4), Fr(3, 4), Fr(1, 2), Fr(1, 2), Fr(0)][(k + i // 12) % 7]
+                if vertical:
+                    g["height"] = Fr([1000, 800, 901][k % 3]) + [Fr(1, 2), Fr(1, 2), Fr(3, 4)][(k + i // 12) % 3]
+            ctx.klass("fractional advances (halves above even and odd integers)")
         kw = {"useProductionNames": False}
         if flavor == "otf" and i % 4 == 1:
             # unrounded charstrings: fractional outline extrema (fractions on both sides of 1/2), boxes by floor / ceil
@@ -313,6 +321,26 @@ def explore(ctx):
         advs = [m[1] for m in ms]
         if 1 < tt3["hhea"].numberOfHMetrics < len(advs) or any(m[3] is None for m in ms):
             ctx.nontriv(("m", tuple(advs), tuple(m[3] is None for m in ms)))
+        by_src = {g["name"]: g for g in desc["glyphs"]}
+        if not renamed:
+            for n, adv, _sb, _bx in ms:
+                if n in by_src and adv != geom.ot_round(by_src[n]["width"]):
+                    ctx.spec_failure(dict(case, glyph=n), "hmtx advance of %r is %d; the source advance %s rounds (halves up) to %d" % (
+                        n, adv, by_src[n]["width"], geom.ot_round(by_src[n]["width"])))
+                    break
+                if vertical and "vmtx" in tt3 and n in by_src and "height" in by_src[n] and tt3["vmtx"][n][0] != geom.ot_round(by_src[n]["height"]):
+                    ctx.spec_failure(dict(case, glyph=n), "vmtx advance of %r is %d; the source height %s rounds (halves up) to %d" % (
+                        n, tt3["vmtx"][n][0], by_src[n]["height"], geom.ot_round(by_src[n]["height"])))
+                    break
+        if "CFF " in tt3:
+            # the advance a CFF charstring carries is the metrics table's
+            from fontTools.pens.basePen import NullPen
+            css = tt3["CFF "].cff[0].CharStrings
+            for n, adv, _sb, _bx in ms:
+                cs = css[n]; cs.draw(NullPen())
+                if cs.width != adv:
+                    ctx.spec_failure(dict(case, glyph=n), "the CFF charstring of %r carries the advance %r, hmtx says %d" % (n, cs.width, adv))
+                    break
         head = tt3["head"]
         # (1) returned object: numberOfHMetrics precomputed by ufo2ft must already be right
         if returned_numh != tt3["hhea"].numberOfHMetrics:
